@@ -1,6 +1,7 @@
 """C11 — scan pushdown and multi-file scans only skip work, never change rows (narrow clauses).
   C11-PRUNE  a row group is pruned (Ok(true)) only when both statistics are exact and under a *strict* comparison
-             min > constant or max < constant with the operands in that order; NULL constants / missing stats ⇒ false
+             min > constant or max < constant with the operands in that order, evaluated in the order of the column's
+             logical type (the constant's type), not of the physical statistics type; NULL constants / missing stats ⇒ false
   C11-FRAME  ScanFilterPushdown only adds to `scan_filters` (clones of the filter expression): it never assigns the
              plan, takes/replaces a Filter node or its expression — the Filter stays above the scan
   C11-FILES  multi-file scans give partition p the files p, p+n, p+2n, …: `skip(index).step_by(partitions)` with the
@@ -75,6 +76,7 @@ def rule_prune(facts):
                     break
             strict = None
             why = []
+            domain_bad = []
             for c, truth in ctl:
                 op = c.decl.rsplit("::", 1)[-1] if c.decl.startswith("std::cmp::PartialOrd::") else None
                 if op is None or not truth:
@@ -86,16 +88,24 @@ def rule_prune(facts):
                 form = (s0, op, s1)
                 if form in (("min", "gt", "const"), ("max", "lt", "const"), ("const", "lt", "min"), ("const", "gt", "max")):
                     strict = form
+                    # the order used: statistics are stored in the physical type (i32/i64) but unsigned-ordered for unsigned
+                    # columns; the comparison has to be in the order of the column's logical type, i.e. the constant's type
+                    cmp_ty = c.callee.get("self") or (c.gargs or ["?"])[0]
+                    if "PlainType>::Native" in cmp_ty or "ScalarValueUnwrap>::StorageType" not in cmp_ty:
+                        domain_bad.append((op, cmp_ty))
                 else:
                     why.append(form)
-            ok = all(exact.values()) and strict is not None
-            r.inst({"fn": fn.id, "prune_line": ln, "exact_flags_checked": exact, "range_test": strict, "other_tests": why}, ok)
+            ok = all(exact.values()) and strict is not None and not domain_bad
+            r.inst({"fn": fn.id, "prune_line": ln, "exact_flags_checked": exact, "range_test": strict, "compared_in_logical_type": not domain_bad, "other_tests": why}, ok)
             if not ok:
                 msg = []
                 if not all(exact.values()):
                     msg.append(f"statistics exactness not established ({[k for k, v in exact.items() if not v]})")
                 if strict is None:
                     msg.append(f"no strict `min > c` / `max < c` test controls this return (found {why or 'none'})")
+                if domain_bad:
+                    msg.append(f"the range test compares in `{domain_bad[0][1].split(' as ')[0].lstrip('<')}`'s physical type order, not in the order of the "
+                               "column's logical type (unsigned statistics look negative in the signed physical type)")
                 r.violate(fn.id, "prune-true", "returns Ok(true) (prune the row group) although " + "; ".join(msg) +
                           ": row groups that may contain matching rows are skipped", rec["file"], ln)
         if not sites:
